@@ -60,6 +60,8 @@ type lifeScenario struct {
 	CallbackWork time.Duration
 	ReadTimeout  time.Duration
 	AddrCaller   bool
+	Second       string        // "" | "shutdown" | "cancel": a second lifecycle call by another goroutine
+	SecondAfter  time.Duration // that long after the first one was issued
 	Trigger      string        // what the controller waits for before acting: "time" | "handler_start" | "handler_end" | "accept" | "write_begin"
 	TriggerN     int           // the n-th such event
 	TriggerDelay time.Duration // then this much later
@@ -113,6 +115,9 @@ func genC17(t *Tape) *lifeScenario {
 	sc := &lifeScenario{}
 	sc.Callbacks = t.Choose(16)
 	sc.Action = []string{"shutdown", "shutdown_tight", "cancel"}[t.Choose(3)]
+	// a second lifecycle call made concurrently with (or right after) the first: a second Shutdown, or a Shutdown after cancel
+	sc.Second = []string{"", "", "", "shutdown", "cancel"}[t.Choose(5)]
+	sc.SecondAfter = []time.Duration{0, 0, 300 * time.Microsecond, 20 * time.Millisecond, 80 * time.Millisecond}[t.Choose(5)]
 	sc.ActionAt = []time.Duration{0, 0, time.Millisecond, 5 * time.Millisecond, 20 * time.Millisecond, 60 * time.Millisecond, 150 * time.Millisecond, 400 * time.Millisecond}[t.Choose(8)]
 	sc.ActionAt += time.Duration(t.Choose(3000)) * time.Microsecond
 	sc.ShutdownCtx = 5 * time.Second
@@ -380,7 +385,7 @@ func runLife(rc *RunCtx, sc *lifeScenario, seed uint64) *lifeOutcome {
 
 	ctx, cancel := context.WithCancel(context.Background())
 	defer cancel()
-	var serveRet atomic.Bool
+	var serveRet, firstIssued atomic.Bool
 	s.Go("serve", true, func(tk *Task) {
 		err := srv.Serve(ctx, ln, h)
 		serveRet.Store(true)
@@ -423,6 +428,7 @@ func runLife(rc *RunCtx, sc *lifeScenario, seed uint64) *lifeOutcome {
 				return
 			}
 		}
+		firstIssued.Store(true)
 		switch sc.Action {
 		case "cancel":
 			out.CancelAt = s.Now()
@@ -454,6 +460,26 @@ func runLife(rc *RunCtx, sc *lifeScenario, seed uint64) *lifeOutcome {
 			}
 		}
 	})
+	if sc.Second != "" {
+		s.Go("controller2", false, func(tk *Task) {
+			if tk.WaitUntil("await-first-action", func() bool { return firstIssued.Load() }, time.Now().Add(time.Second)) != Ready {
+				return
+			}
+			if sc.SecondAfter > 0 && tk.Sleep("second-delay", sc.SecondAfter) == Drained {
+				return
+			}
+			if sc.Second == "cancel" {
+				s.Logf("second: cancel-serve-ctx")
+				cancel()
+				return
+			}
+			sctx, scancel := context.WithTimeout(context.Background(), 2*time.Second)
+			defer scancel()
+			s.Logf("second: shutdown-call")
+			err := srv.Shutdown(sctx)
+			s.Logf("second: shutdown-returned %v", err)
+		})
+	}
 	if sc.AddrCaller {
 		s.Go("addr-caller", true, func(tk *Task) {
 			if tk.WaitUntil("await-serving", ln.AnyAccepted, time.Now().Add(time.Second)) != Ready {
